@@ -23,6 +23,9 @@ EXPLANATION = (
     'rollback, and in a finally of the entry point. Decides that the fence '
     'exists on every method and is atomic with the append; a straggler that '
     'passed the fence earlier keeps running its effects (not decided).')
+# round 3/4 additions
+EXPLANATION += (
+    ' R17.1 counts the fence only when it is evaluated on the object the public method was called on.')
 
 FENCE = '_assert_not_finished'
 APPENDER = '_append_suboperation'
